@@ -7,7 +7,7 @@ import json, os, subprocess, sys, glob, time
 
 REVERTS = {
     "79238dd": ["C05", "C06", "C07"], "e5830d7": ["C05"], "ee30611": ["C09"], "c04d532": ["C16", "C10"], "ca6c5cb": ["C10"],
-    "18a7051": ["C13"], "dda5d32": ["C13"], "703fb0a": ["C15"], "f8af41b": ["C15"], "f96eb56": ["C12"], "5436b88": ["C16", "C13"],
+    "18a7051": ["C13"], "dda5d32": ["C13"], "703fb0a": ["C15"], "f8af41b": ["C15"], "f96eb56": ["C12"], "5436b88": ["C16", "C13"], "d3b0444": ["C13"],
 }
 
 def sh(cmd, **kw):
